@@ -10,3 +10,12 @@ package util
 //@ requires known_kind: workloadTag(object.tag)
 //@ ensures same_kind: result.tag == object.tag
 //@ ensures is_fresh: iref(result) != nil && fresh(iref(result))
+
+//@ define stepsOf(r) = ite(r.Spec.Strategy.BlueGreen != nil, r.Spec.Strategy.BlueGreen.Steps, r.Spec.Strategy.Canary.Steps)
+//@ define nextIdx(r, i) = ite(i >= len(stepsOf(r)), 0 - 1, i + 1)
+
+//@ func NextBatchIndex
+//@ props C02 C09
+//@ requires rollout != nil ==> rollout.Spec.Strategy.BlueGreen != nil || rollout.Spec.Strategy.Canary != nil
+//@ ensures result == ite(rollout == nil, 0 - 1, nextIdx(rollout, CurrentStepIndex))
+//@ pure
